@@ -148,12 +148,13 @@ func runC07(r *core.Run) {
 		add("S1", three, 1, "stmt")
 		add("S2", []string{"core", "gfm", rich}, 1, "func") // statement granularity for S2: the custom configuration below (a superset of rich)
 		add("S3", []string{rich}, 1, "func")
-		add("S4", three, 1, "stmt")
-		add("S5", three, 1, "stmt")
+		add("S4", []string{"core", rich}, 1, "stmt")
+		add("S5", []string{"core", rich}, 1, "stmt")
 		add("S6", []string{"core", rich}, 1, "stmt")
 		add("S2", []string{"custom+autoid+attr+xhtml+hardwraps"}, 1, "stmt")
-		add("S8", []string{rich}, 1, "stmt")
-		add("S9", []string{"core", rich}, 1, "stmt")
+		add("S8", []string{rich}, 1, "func") // statement granularity in the thorough tier
+		add("S9", []string{rich}, 1, "stmt")
+		add("S10", []string{"all+cjk"}, 1, "stmt")
 	} else {
 		add("S0", three, 2, "stmt")
 		add("S0", []string{"core", rich}, 3, "func")
@@ -173,6 +174,7 @@ func runC07(r *core.Run) {
 		add("S5", []string{"custom+autoid+attr"}, 1, "stmt")
 		add("S8", []string{"core", rich, "custom+autoid+attr"}, 1, "stmt")
 		add("S9", three, 1, "stmt")
+		add("S10", []string{"core", "gfm", "all+cjk", "custom"}, 1, "stmt")
 		add("S9", []string{"core"}, 2, "func")
 	}
 
@@ -316,7 +318,7 @@ func c07RacePass(r *core.Run, b *c07Build) {
 	var tasks []rt
 	rounds := core.Pick(r, 20, 100)
 	procs := core.Pick(r, 3, 8)
-	for _, sc := range []string{"S1", "S2", "S4", "S5", "S6", "S7", "S8", "S9"} {
+	for _, sc := range []string{"S1", "S2", "S4", "S5", "S6", "S7", "S8", "S9", "S10"} {
 		for _, c := range []string{"core", "all+cjk+autoid+attr", "custom+autoid+attr+xhtml+hardwraps"} {
 			if sc == "S7" && c != "core" || c[0] == 'c' && c[1] == 'u' && sc != "S2" && sc != "S5" {
 				continue
